@@ -5,6 +5,7 @@ import (
 	"os"
 	"path/filepath"
 	"sort"
+	"strings"
 	"testing"
 	"testing/synctest"
 
@@ -39,6 +40,7 @@ type c12Out struct {
 	diverge string
 	order   string // global order of response writes (non-vacuity witness)
 	closed  []bool
+	unread  []int // request bytes the server had not consumed when it closed the connection
 }
 
 func c12Exec(t *testing.T, root string, sc c12Scenario, only int, prefix []int) *c12Out {
@@ -136,10 +138,14 @@ func c12Exec(t *testing.T, root string, sc c12Scenario, only int, prefix []int) 
 			if c == nil {
 				out.streams = append(out.streams, nil)
 				out.closed = append(out.closed, true)
+				out.unread = append(out.unread, 0)
 				continue
 			}
 			out.streams = append(out.streams, c.Take())
 			out.closed = append(out.closed, c.ServerClosed())
+			c.mu.Lock()
+			out.unread = append(out.unread, c.closeUnread)
+			c.mu.Unlock()
 		}
 		out.leaked = leaf.Outstanding()
 		out.order = order.String()
@@ -297,7 +303,15 @@ func c12Explore(t *testing.T, r *Reporter, root string, sc c12Scenario, bound in
 		}
 		for i := range sc.clients {
 			if sc.framing[i] {
-				if why := c12Framing(sc.clients[i], o.streams[i]); why != "" {
+				why := c12Framing(sc.clients[i], o.streams[i])
+				if strings.HasPrefix(why, "stream ends inside") && strings.Contains(why, "(read data") && o.unread[i] > 0 {
+					// the file shrank between the announcement and the transfer and the server ended the connection
+					// there, leaving the following requests unread: a correct prefix followed by disconnection - the
+					// client knows, nothing is out of step (going on after a short transfer would be)
+					r.Outcome(sc.name + ":reader-disconnected-mid-read")
+					continue
+				}
+				if why != "" {
 					viol(sprintf("framing-lost:client%d", i), sprintf("client %d (its file is rewritten by another client meanwhile): %s", i, why))
 					break
 				}
